@@ -36,6 +36,13 @@ THEOREMS = [
     "C18_slice_raise_effect",
     "C18_restart_stable",
     "C18_restart_witness",
+    "C18_reuse_across_edits",
+    "C18_scoped_key_fixed",
+    "C18_path_edits_scoped",
+    "C18_all_edits_ident",
+    "C18_path_edits_full_witness",
+    "C18_operand_relabel_witness",
+    "C18_raising_injection_leaves_nothing",
 ]
 RULE = (
     "seeded histories of operator expressions on real output channels / single-output nodes: each of the 30 operator "
@@ -122,7 +129,7 @@ def _lit(s: str):
 # ----------------------------------------------------------------------------- generation
 
 _TOO_BIG = ("big",)
-MARKERS = ("reload", "restart", "update", "recheck")  # ops that are not expressions
+MARKERS = ("reload", "restart", "update", "recheck", "edit")  # ops that are not expressions
 
 
 def _pos(rng, n):
@@ -312,6 +319,10 @@ class _Gen:
 
     def src(self, value, ctx, ran=None, label=None):
         s = {"value": value, "ctx": ctx, "ran": self.rng.random() < 0.7 if ran is None else ran, "now": value}
+        if ctx == "mac":
+            k = sum(1 for x in self.sources if x["ctx"] == "mac")
+            if k < 3:
+                label = f"m{k}"  # the holders the macro class makes
         if label:
             s["label"] = label
         self.sources.append(s)
@@ -370,12 +381,57 @@ class _Gen:
         self.op_val.append(None)
         self.recompute()
 
+    def edit(self, kinds=None):
+        """an ownership / label edit: an ancestor is relabelled, the parent composite is adopted / moved / orphaned /
+        relabelled, a source node (owner or operand of expressions) is relabelled, a new source takes a name"""
+        rng = self.rng
+        has_mac = any(x["ctx"] == "mac" for x in self.sources)
+        kinds = kinds or (["relabel_root", "relabel_root", "relabel_src", "relabel_src", "newsrc"] +
+                          (["adopt", "adopt", "move", "orphan", "relabel_parent"] if has_mac else []))
+        kind = rng.choice(kinds)
+        self.n_edits = getattr(self, "n_edits", 0) + 1
+        if kind == "relabel_root":
+            op = {"op": "edit", "kind": kind, "ctx": rng.choice(["wf", "wf2"])}
+        elif kind in ("adopt", "move"):
+            op = {"op": "edit", "kind": kind, "target": rng.choice(["wf", "wf2"]), "how": rng.choice(["add", "setattr"])}
+        elif kind in ("orphan", "relabel_parent"):
+            op = {"op": "edit", "kind": kind}
+        elif kind == "relabel_src":
+            live = [i for i, x in enumerate(self.sources) if not x.get("late") or x.get("made")]
+            used = [i for i in live if any(o["op"] not in MARKERS and (o["owner"] == ["src", i] or
+                    any(a[0] == "ref" and a[1] == ["src", i] for a in o["operands"])) for o in self.ops)]
+            i = rng.choice(used if used and rng.random() < 0.8 else live)
+            new = f"g{self.n_edits}"
+            self.freed = getattr(self, "freed", [])
+            self.freed.append((self.sources[i]["ctx"], self.sources[i].get("cur") or self.sources[i].get("label") or f"s{i}"))
+            self.sources[i]["cur"] = new
+            op = {"op": "edit", "kind": kind, "src": i, "label": new}
+        else:  # newsrc: preferably under a name that a relabelled source has given up
+            freed = [f for f in getattr(self, "freed", []) if f[0] != "mac" or True]
+            if freed and rng.random() < 0.8:
+                ctx, label = freed.pop(rng.randrange(len(freed)))
+                self.freed = freed
+            else:
+                ctx, label = rng.choice(["wf", "wf", "wf2", "free"]), f"n{self.n_edits}"
+            if ctx not in {x["ctx"] for x in self.sources}:
+                ctx = "wf"
+            value = rng.choice(POOL)
+            sdef = {"value": value, "ctx": ctx, "ran": rng.random() < 0.7, "label": label, "late": True, "made": True,
+                    "now": value, "cur": label}
+            self.sources.append(sdef)
+            i = len(self.sources) - 1
+            self.avail.append({"ref": ["src", i], "ctx": ctx, "val": ("val", _lit(value))})
+            op = {"op": "edit", "kind": kind, "src": i,
+                  "source": {k: v for k, v in sdef.items() if k in ("value", "ctx", "ran", "label")}}
+        self.ops.append(op)
+        self.op_val.append(None)
+
     def bigpair(self):
         """the same operator with two long / deep / large raw operands that differ in one place, and once more"""
         rng = self.rng
         kind, a, b = _big_pair(rng)
         ctxs = sorted({x["ctx"] for x in self.avail if x["ctx"]})
-        ctx = rng.choices(ctxs, [{"wf": 70, "wf2": 15, "free": 15}[c] for c in ctxs])[0]
+        ctx = rng.choices(ctxs, [{"wf": 70, "wf2": 15, "free": 15, "mac": 30}[c] for c in ctxs])[0]
         cands = [x for x in self.avail if x["ctx"] == ctx]
         fit = [x for x in cands if x["val"] and x["val"][0] == "val" and
                (_kind(x["val"][1]) == kind or (kind == "int" and _kind(x["val"][1]) == "num"))]
@@ -436,7 +492,7 @@ class _Gen:
     def fresh(self):
         rng = self.rng
         ctxs = sorted({a["ctx"] for a in self.avail if a["ctx"]})
-        weights = {"wf": 60, "wf2": 15, "free": 25}
+        weights = {"wf": 60, "wf2": 15, "free": 25, "mac": 40}
         ctx = rng.choices(ctxs, [weights[c] for c in ctxs])[0]
         cands = [a for a in self.avail if a["ctx"] == ctx]
         known = [a for a in cands if a["val"] and a["val"][0] == "val"]
@@ -474,6 +530,8 @@ class _Gen:
             return self.bigpair()
         elif real and rng.random() < 0.04:
             return self.update()
+        elif real and rng.random() < 0.05:
+            return self.edit()
         if real and r < 0.03:
             self.push({"op": "reload"})
         elif real and r < 0.23:
@@ -499,10 +557,15 @@ class _Gen:
             self.push(op, res)
 
 
-def gen_history(rng, n_ops, restart=False, rewrite=False):
+def gen_history(rng, n_ops, restart=False, rewrite=False, edits=False):
     g = _Gen(rng)
     g.src(rng.choice(SEQS), "wf")
     g.src(rng.choice(INTS), "wf")
+    if (edits and rng.random() < 0.7) or rng.random() < 0.1:  # a parent that is not a root: children of a macro
+        g.src(rng.choice(SEQS), "mac")
+        g.src(rng.choice(INTS), "mac")
+        if rng.random() < 0.5:
+            g.src(rng.choice(POOL), "mac")
     for _ in range(rng.randint(0, 2)):
         g.src(rng.choice(POOL), "wf")
     if rng.random() < 0.4:  # a second parent whose children carry the same labels
@@ -512,7 +575,33 @@ def gen_history(rng, n_ops, restart=False, rewrite=False):
         g.src(rng.choice(POOL), "free")
         if rng.random() < 0.6:
             g.src(rng.choice(INTS), "free")
-    if rewrite:
+    if edits:
+        # write expressions, EDIT names / ownership above and beside them, write every expression again; twice;
+        # in between also a pickle round trip; at the end everything is compared with Python once more
+        ctxs = ["wf", "mac"] if any(x["ctx"] == "mac" for x in g.sources) else ["wf"]
+        for _ in range(n_ops):
+            if rng.random() < 0.25:
+                cands = [a for a in g.avail if a["ctx"] == rng.choice(ctxs)]
+                g.push(g.slice_op(cands))
+            else:
+                g.push(*g.fresh())
+        first = [j for j, o in enumerate(g.ops) if o["op"] not in MARKERS]
+        for _round in range(2):
+            for _ in range(rng.randint(1, 3)):
+                g.edit()
+            if rng.random() < 0.3:
+                g.push({"op": "reload"})
+                if rng.random() < 0.7:
+                    g.edit(["relabel_root", "relabel_src"] + (["adopt", "move", "relabel_parent"] if len(ctxs) > 1 else []))
+            for j in first:
+                if rng.random() < 0.85:
+                    g.push(_flip_forms(rng, g.ops[j]))
+            if rng.random() < 0.6:
+                g.push(*g.fresh())
+            if rng.random() < 0.4:
+                g.update()
+        g.push({"op": "recheck"})
+    elif rewrite:
         # write expressions (many slices with channel bounds, chains on them), write each of them AGAIN, then
         # change the values the operands hold and compare every node with Python again; and once more
         for _ in range(n_ops):
@@ -541,7 +630,8 @@ def gen_history(rng, n_ops, restart=False, rewrite=False):
             g.step(p_repeat=0.7)
         if rng.random() < 0.5:
             g.update()
-    return {"kind": "history", "sources": [{k: v for k, v in x.items() if k != "now"} for x in g.sources], "ops": g.ops}
+    return {"kind": "history", "ops": g.ops,
+            "sources": [{k: v for k, v in x.items() if k not in ("now", "cur", "made")} for x in g.sources]}
 
 
 def _bigpair_case(rng, kind, size=None):
@@ -624,6 +714,10 @@ def gen_cases(rng, tier):
     for i in range(24 if tier == "quick" else 300):
         c = gen_history(rng, rng.randint(3, 9), rewrite=True)
         c["id"] = f"{tier[0]}w{i}"
+        yield c
+    for i in range(30 if tier == "quick" else 400):
+        c = gen_history(rng, rng.randint(3, 8), edits=True)
+        c["id"] = f"{tier[0]}e{i}"
         yield c
     k = 0
     for kind in ["str", "int", "list", "tuple", "set", "dict", "dictkey", "nested", "liststr"]:
@@ -729,6 +823,40 @@ def corpus():
                    {"op": "slice", "owner": ["src", 0], "owner_form": "node",
                     "operands": [["ref", ["src", 1], "node"], ["raw", "None"], ["raw", "None"]]},
                    {"op": "recheck"}]}
+    # the path ABOVE the parent changes between writing and re-writing: root relabelled, macro adopted / moved
+    yield {"kind": "history", "id": "c-path",
+           "sources": [{"value": "3", "ctx": "wf", "ran": True}, {"value": "4", "ctx": "wf", "ran": True},
+                       {"value": "[0, 1, 2, 3]", "ctx": "mac", "ran": True}, {"value": "1", "ctx": "mac", "ran": True}],
+           "ops": [{"op": "mul", "owner": ["src", 0], "owner_form": "node", "operands": [["raw", "2"]]},
+                   {"op": "add", "owner": ["src", 0], "owner_form": "node", "operands": [["ref", ["src", 1], "node"]]},
+                   {"op": "slice", "owner": ["src", 2], "owner_form": "node",
+                    "operands": [["ref", ["src", 3], "node"], ["raw", "None"], ["raw", "None"]]},
+                   {"op": "sub", "owner": ["src", 3], "owner_form": "node", "operands": [["raw", "1"]]},
+                   {"op": "edit", "kind": "relabel_root", "ctx": "wf"},
+                   {"op": "mul", "owner": ["src", 0], "owner_form": "node", "operands": [["raw", "2"]]},
+                   {"op": "add", "owner": ["src", 0], "owner_form": "channel", "operands": [["ref", ["src", 1], "channel"]]},
+                   {"op": "edit", "kind": "adopt", "target": "wf", "how": "add"},
+                   {"op": "sub", "owner": ["src", 3], "owner_form": "node", "operands": [["raw", "1"]]},
+                   {"op": "slice", "owner": ["src", 2], "owner_form": "node",
+                    "operands": [["ref", ["src", 3], "node"], ["raw", "None"], ["raw", "None"]]},
+                   {"op": "edit", "kind": "move", "target": "wf2", "how": "setattr"},
+                   {"op": "reload"},
+                   {"op": "edit", "kind": "relabel_root", "ctx": "wf2"},
+                   {"op": "sub", "owner": ["src", 3], "owner_form": "channel", "operands": [["raw", "1"]]},
+                   {"op": "edit", "kind": "relabel_parent"},
+                   {"op": "edit", "kind": "orphan"},
+                   {"op": "slice", "owner": ["src", 2], "owner_form": "channel",
+                    "operands": [["ref", ["src", 3], "channel"], ["raw", "None"], ["raw", "None"]]},
+                   {"op": "update", "src": 3, "value": "2"}]}
+    # KF-C18-4: an operand is relabelled between writing and re-writing; then a new node takes the old name
+    yield {"kind": "history", "id": "c-relabel",
+           "sources": [{"value": "10", "ctx": "wf", "ran": True}, {"value": "1", "ctx": "wf", "ran": True},
+                       {"value": "5", "ctx": "wf", "ran": True, "label": "s1", "late": True}],
+           "ops": [{"op": "add", "owner": ["src", 0], "owner_form": "node", "operands": [["ref", ["src", 1], "node"]]},
+                   {"op": "edit", "kind": "relabel_src", "src": 1, "label": "c"},
+                   {"op": "add", "owner": ["src", 0], "owner_form": "node", "operands": [["ref", ["src", 1], "node"]]},
+                   {"op": "edit", "kind": "newsrc", "src": 2, "source": {"value": "5", "ctx": "wf", "ran": True, "label": "s1"}},
+                   {"op": "add", "owner": ["src", 0], "owner_form": "node", "operands": [["ref", ["src", 2], "node"]]}]}
     # KF-C18-3: the same expressions again after save / new interpreter session / load
     yield {"kind": "history", "id": "c-restart",
            "sources": [{"value": "3", "ctx": "wf", "ran": True}, {"value": "[1, 2]", "ctx": "wf", "ran": True}],
@@ -783,7 +911,13 @@ def _variant():
             sl = "python"
         except ValueError:
             sl = "strict"
-        _VARIANT = {"printer": printer, "slice": sl}
+        wf = Workflow("probe2", autoload=None)
+        wf.a = std.UserInput(1)
+        wf.b = std.UserInput(2)
+        first = wf.a + wf.b
+        wf.c = wf.b  # relabel the operand
+        key = "ident" if (wf.a + wf.c) is first else "label"
+        _VARIANT = {"printer": printer, "slice": sl, "key": key}
     return _VARIANT
 
 
@@ -934,17 +1068,36 @@ class _Run:
     """the state of one history on the real objects; picklable as a whole, so that it can move to a new
     interpreter session (op `restart`)"""
 
-    PAR_ID = {"wf": "0", "wf2": "1", "free": "-"}
+    PAR_ID = {"wf": "0", "wf2": "1", "mac": "2", "free": "-"}
 
     def __init__(self, case):
         import pyiron_workflow.nodes.standard as std
         from pyiron_workflow import Workflow
 
         self.wfs = {"wf": Workflow("w", autoload=None), "wf2": Workflow("w2", autoload=None)}
+        if any(s["ctx"] == "mac" for s in case["sources"]):
+            from .nodes_c18 import Holder3
+
+            # a parent that is not a root: a macro, stand-alone at first (edits may hand it to a workflow later)
+            self.wfs["mac"] = Holder3(label="mac")
+            self.wfs["mac"].recovery = None
         self.src_nodes, self.src_vals, self.src_ctx = [], [], []
+        self.src_info = []
+        n_mac = 0
         for i, s in enumerate(case["sources"]):
+            if s.get("late"):  # made later, by an edit op
+                self.src_nodes.append(None)
+                self.src_vals.append(None)
+                self.src_ctx.append(s["ctx"])
+                self.src_info.append(None)
+                continue
             v = _lit(s["value"])
-            n = std.UserInput(v, label=s.get("label") or f"s{i}", parent=self.wfs.get(s["ctx"]))
+            if s["ctx"] == "mac" and n_mac < 3:
+                n = self.wfs["mac"].children[f"m{n_mac}"]
+                n.inputs.user_input.value = v
+                n_mac += 1
+            else:
+                n = std.UserInput(v, label=s.get("label") or f"s{i}", parent=self.wfs.get(s["ctx"]))
             n.recovery = None
             n.use_cache = False  # "once run": a cache hit is not a run (what may be served from a cache is C05/C08)
             if s["ran"]:
@@ -952,8 +1105,14 @@ class _Run:
             self.src_nodes.append(n)
             self.src_vals.append(v)
             self.src_ctx.append(s["ctx"])
-        self.src_info = [[self.PAR_ID[c], n.outputs.user_input.scoped_label, n.label]
-                         for c, n in zip(self.src_ctx, self.src_nodes)]
+            self.src_info.append([self.PAR_ID[s["ctx"]], n.outputs.user_input.scoped_label, n.label])
+        if "mac" in self.wfs:
+            for lab in ("m0", "m1", "m2"):  # holders no source of the case uses: plain children of the macro
+                ch = self.wfs["mac"].children[lab]
+                ch.recovery = None
+                if not any(ch is n for n in self.src_nodes):
+                    self.src_info.append([self.PAR_ID["mac"], None, lab])
+        self.n_edits = 0
         self.inj_nodes: list = []  # every node made by an expression, in creation order (= the model's node ids)
         self.inj_ctx: list = []
         self.inj_exp: list = []  # expected value of node k: ("val", v) | ("exc", name) | None (undefined)
@@ -969,8 +1128,8 @@ class _Run:
     def bump(self, key, n=1):
         self.stats[key] = self.stats.get(key, 0) + n
 
-    def count(self, ctx):
-        return str(len(self.wfs[ctx].children)) if ctx in self.wfs else "-"
+    def count(self, ctx, missing="-"):
+        return str(len(self.wfs[ctx].children)) if ctx in self.wfs else missing
 
     def index_of(self, node):
         for k, n in enumerate(self.inj_nodes):
@@ -983,6 +1142,8 @@ class _Run:
         if ref[0] == "src":
             i = ref[1] % len(self.src_nodes)
             n = self.src_nodes[i]
+            if n is None:
+                return self.resolve(["src", 0])
             return n, n.outputs.user_input, ("val", self.src_vals[i]), ("src", i), f"c{i}", self.src_ctx[i]
         j = ref[1]
         if 0 <= j < len(self.op_node) and self.op_node[j] is not None:
@@ -1040,7 +1201,7 @@ class _Run:
             self.obs.append(f"noreload {type(e).__name__}")
             self.rec.append({"d": "reload", "injected": False, "exp": None, "raised": type(e).__name__})
             return
-        self.obs.append(f"reload {self.count('wf')} {self.count('wf2')}")
+        self.obs.append(f"reload {self.count('wf')} {self.count('wf2')} {self.count('mac', '0')}")
         self.rec.append({"d": "reload", "injected": False, "exp": None, "raised": None, "line": "reload"})
         self.bump("op:reload")
 
@@ -1072,7 +1233,7 @@ class _Run:
             raise RuntimeError("C18 child session failed: " + p.stderr[-1500:])
         out = json.loads(p.stdout.splitlines()[-1])
         self.hash_variant = "stable" if out["probe"] == _probe_label() else "salted"
-        self.obs.append(f"restart {self.count('wf')} {self.count('wf2')}")
+        self.obs.append(f"restart {self.count('wf')} {self.count('wf2')} {self.count('mac', '0')}")
         self.rec.append({"d": "restart", "injected": False, "exp": None, "raised": None, "line": "restart"})
         self.bump("op:restart")
         self.obs += out["obs"]
@@ -1112,7 +1273,8 @@ class _Run:
         memo: dict = {}
         bad, n = [], 0
         for node in self.src_nodes + self.inj_nodes:
-            node.failed = False  # as a user would, before running again after a failure
+            if node is not None:
+                node.failed = False  # as a user would, before running again after a failure
         for k, node in enumerate(self.inj_nodes):
             exp = self.expected(("node", k), memo)
             if exp is None:
@@ -1146,6 +1308,9 @@ class _Run:
             i = op["src"] % len(self.src_nodes)
             v = _lit(op["value"])
             n = self.src_nodes[i]
+            if n is None:
+                self.rec.append(r)
+                return
             n.failed = False
             had_data = n.outputs.user_input.value is not NOT_DATA
             n.inputs.user_input.value = v
@@ -1156,6 +1321,99 @@ class _Run:
         self.recheck(r)
         self.rec.append(r)
         self.bump(f"op:{op['op']}")
+
+    def edit(self, op):
+        """ownership / label edits between writing and re-writing expressions"""
+        import pyiron_workflow.nodes.standard as std
+
+        self.op_node.append(None)
+        kind = op["kind"]
+        self.n_edits += 1
+        fresh = f"e{self.n_edits}"
+        lines: list = []
+        r = {"d": "edit", "kind": kind, "injected": False, "exp": None, "raised": None}
+        mac = self.wfs.get("mac")
+
+        def host_of(node):
+            for c, w in self.wfs.items():
+                if c != "mac" and node.parent is w:
+                    return c
+            return None
+
+        try:
+            if kind == "relabel_root":
+                # any ancestor label: the root workflows, or the workflow the macro lives in
+                self.wfs[op["ctx"] if op["ctx"] in ("wf", "wf2") else "wf"].label = "root_" + fresh
+            elif kind in ("adopt", "move", "orphan", "relabel_parent"):
+                if mac is None:
+                    raise LookupError("no macro in this case")
+                old_host, old_label = host_of(mac), mac.label
+                if kind == "relabel_parent":
+                    if old_host is None:
+                        mac.label = "mac_" + fresh
+                    else:
+                        setattr(self.wfs[old_host], "mac_" + fresh, mac)  # the supported relabel of a child
+                else:
+                    if old_host is not None:
+                        self.wfs[old_host].remove_child(mac)
+                    if kind != "orphan":
+                        tgt = op.get("target", "wf")
+                        if kind == "move" and old_host == tgt:
+                            tgt = "wf2" if tgt == "wf" else "wf"
+                        target = self.wfs[tgt]
+                        if op.get("how") == "setattr":
+                            setattr(target, "held_" + fresh, mac)  # adds AND relabels
+                        else:
+                            target.add_child(mac)
+                new_host = host_of(mac)
+                if old_host is not None:
+                    lines.append(f"unchild {self.PAR_ID[old_host]} {_hx(old_label)}")
+                if new_host is not None:
+                    lines.append(f"child {self.PAR_ID[new_host]} {_hx(mac.label)}")
+            elif kind == "relabel_src":
+                i = op["src"] % len(self.src_nodes)
+                n = self.src_nodes[i]
+                if n is None:
+                    raise LookupError("source not made yet")
+                old_label, new_label = n.label, op.get("label") or ("s_" + fresh)
+                if n.parent is not None:
+                    setattr(n.parent, new_label, n)  # the supported relabel of a child: the parent's table follows
+                else:
+                    n.label = new_label
+                r["src"] = i
+                lines.append(f"rename c{i} {_hx(n.outputs.user_input.scoped_label)}")
+                if self.src_ctx[i] in self.wfs:
+                    par = self.PAR_ID[self.src_ctx[i]]
+                    lines += [f"unchild {par} {_hx(old_label)}", f"child {par} {_hx(new_label)}"]
+            elif kind == "newsrc":
+                i = op["src"]
+                sdef = op["source"]
+                if self.src_nodes[i] is not None:
+                    raise LookupError("source exists")
+                ctx = sdef["ctx"]
+                v = _lit(sdef["value"])
+                n = std.UserInput(v, label=sdef["label"], parent=self.wfs.get(ctx))
+                n.recovery = None
+                n.use_cache = False
+                if sdef.get("ran"):
+                    n.run()
+                self.src_nodes[i], self.src_vals[i], self.src_ctx[i] = n, v, ctx
+                r["src"] = i
+                lines.append(f"chan {i} {self.PAR_ID[ctx]} {_hx(n.outputs.user_input.scoped_label)}")
+                if ctx in self.wfs:
+                    lines.append(f"child {self.PAR_ID[ctx]} {_hx(n.label)}")
+            else:
+                raise ValueError(kind)
+        except Exception as e:  # noqa: BLE001
+            r["raised"] = type(e).__name__
+            self.obs.append(f"noedit {kind} {type(e).__name__}")
+            self.rec.append(r)
+            return
+        lines.append("edit")
+        r["lines"] = lines
+        self.obs.append(f"edit {self.count('wf')} {self.count('wf2')} {self.count('mac', '0')}")
+        self.rec.append(r)
+        self.bump(f"edit:{kind}")
 
     def op(self, op):
         from pyiron_workflow.channels import NOT_DATA
@@ -1318,6 +1576,8 @@ class _Run:
                     return  # the rest ran in the other session
             elif op["op"] in ("update", "recheck"):
                 self.update(op)
+            elif op["op"] == "edit":
+                self.edit(op)
             else:
                 self.op(op)
 
@@ -1369,18 +1629,24 @@ def model_input(case, impl=None):
     impl = impl or {}
     variant = impl.get("variant") or {"printer": "repaired", "slice": "strict"}
     lines = [f"cfg {variant['printer']}", f"cfg slice {variant['slice']}", f"cfg hash {variant.get('hash', 'salted')}"]
-    for i, (par, scoped, label) in enumerate(impl.get("src", [])):
-        lines.append(f"chan {i} {par} {_hx(scoped)}")
+    lines.append(f"cfg key {variant.get('key', 'label')}")
+    for i, info in enumerate(impl.get("src", [])):
+        if info is None:
+            continue
+        par, scoped, label = info
+        if scoped is not None:
+            lines.append(f"chan {i} {par} {_hx(scoped)}")
         if par != "-":
             lines.append(f"child {par} {_hx(label)}")
     for r in impl.get("ops", []):
         if r.get("line"):
             lines.append(r["line"])
+        lines.extend(r.get("lines", []))
     return lines
 
 
 def corr_view(case, impl):
-    return [o for o in impl["obs"] if not o.startswith(("noinject", "noreload"))]
+    return [o for o in impl["obs"] if not o.startswith(("noinject", "noreload", "noedit"))]
 
 
 # ----------------------------------------------------------------------------- oracle (independent of the model)
@@ -1414,14 +1680,27 @@ def oracle(case, r):
     marks: list = []  # (op index, "reload" | "restart")
 
     def after(j):
-        kinds = {k for (m, k) in marks if m > j}
-        return "restart" if "restart" in kinds else ("reload" if "reload" in kinds else "-")
+        """what happened since op #j, as far as it can matter to the expression of op #j"""
+        mentioned = {tuple(x) for x in [r["ops"][j]["expr"][1]] + [a[1:] for a in r["ops"][j]["expr"][3] if a[0] == "ref"]}
+        kinds = set()
+        for (m, k, src) in marks:
+            if m > j:
+                kinds.add("relabel-operand" if (k == "relabel_src" and ("src", src) in mentioned)
+                          else ("edit" if k == "relabel_src" else k))
+        for k in ("relabel-operand", "restart", "edit", "reload"):
+            if k in kinds:
+                return k
+        return "-"
 
     for i, o in enumerate(r.get("ops", [])):
         d = o["d"]
         if d in ("reload", "restart"):
             if o.get("line"):
-                marks.append((i, d))
+                marks.append((i, d, None))
+            continue
+        if d == "edit":
+            if o.get("lines"):
+                marks.append((i, "relabel_src" if o["kind"] == "relabel_src" else "edit", o.get("src")))
             continue
         if d in ("update", "recheck"):
             # every node made so far, pulled again (after the operands' values changed): still Python's value?
@@ -1477,8 +1756,8 @@ def oracle(case, r):
                     if a[:3] == b[:3] and _same_strs(r["ops"][j]["toks"], o["toks"]):
                         coll = "operand-str"
                     fails.append(_f("shared-node", f"{where} was handed node {k}, which belongs to the different "
-                                    f"expression of op #{j} {a} (value {r['ops'][j].get('got')}, Python gives {o['exp']})",
-                                    trigger=d, collision=coll))
+                                    f"expression of op #{j} {a} (value {r['ops'][j].get('got')}, Python gives {o['exp']}; "
+                                    f"in between: {after(j)})", trigger=d, collision=coll, after=after(j)))
                 elif not o.get("new"):
                     fails.append(_f("shared-node", f"{where}: first occurrence of the expression was handed the existing "
                                     f"node {k}", trigger=d, collision="unknown-owner"))
